@@ -41,6 +41,12 @@ def observe(cid, data, nl):
     try:
         keep = split_lines(data, nl, keep_ends=True)
         drop = split_lines(data, nl)
+        if len(data) >= 200:
+            # a function of its arguments: the same call again, in either order of the two modes, gives the same lines
+            again = [split_lines(data, nl, keep_ends=False), split_lines(data, nl, keep_ends=True),
+                     split_lines(data, nl, keep_ends=False), split_lines(data, nl, keep_ends=True)]
+            if again[0] != drop or again[2] != drop or again[1] != keep or again[3] != keep:
+                exc = 'ResultChangesWhenTheCallIsRepeated'
     except Exception as e:      # noqa
         exc = type(e).__name__
     return {'id': cid, 'data': list(data), 'nl': list(nl), 'keep': [list(x) for x in keep],
